@@ -1,13 +1,65 @@
-(* C01 — pinned statements; proofs live in Proofs/. *)
-From NW Require Import Base.Bytes Model.SchemaTypes Gen.Schema Model.Codec Model.Ids Model.Server.
+(* C01 — Broadcast confinement: only current read-permitted members receive a payload.
+   Pinned statements (types pasted verbatim from the proved lemmas by tools/pin.py); proofs in Proofs/Server*.v. *)
+From NW Require Import Base.Bytes Model.SchemaTypes Gen.Schema Model.Codec Model.MsgInfo Model.Ids Model.Server.
+From NW Require Import Proofs.ServerLib Proofs.ServerRoute Proofs.ServerHandlers Proofs.ServerSteps Proofs.ServerPhases.
+From NW Require Import Proofs.ServerInvBase Proofs.ServerInv Proofs.ServerUniq Proofs.ServerInvCor.
+From NW Require Import Proofs.ServerDelivery Proofs.ServerEvents Proofs.ServerIdentity.
 
-(* the model computes: a client connects, identifies and creates a channel *)
-Example C01_model_smoke :
-  let cfg := {| domain := bs "localhost"; has_mod := false; op_auth := false; op_fbp := false; op_fev := false; op_spp := false;
-                proto := []; max_clients := 10; max_subs := 10; max_payload_cfg := 1024; max_inflight := 10; max_message := 1024;
-                keepalive := 60000; min_keepalive := 1000; max_conns := 16; pool_budget := 4194304 |} in
-  let s := run_state cfg init [Open 1; Bytes 1 (bs "CONNECT version=1 heartbeat_interval=0" ++ [NL]) [] [];
-                               Bytes 1 (bs "IDENTIFY username=alice" ++ [NL]) [] [];
-                               Bytes 1 (bs "JOIN id=1 channel=!c1@localhost" ++ [NL]) [] []] in
-  map fst (chans s) = [bs "c1"] /\ map fst (router s) = [bs "alice"].
-Proof. vm_compute. split; reflexivity. Qed.
+Theorem C01_confinement_every_op :
+  forall (cfg : scfg) (s : state) (o : op) (s' : state) (os : list out),
+    Inv cfg s ->
+    op_ok cfg s o ->
+    step cfg s o = (s', os) ->
+    forall (h : N) (m : msg) (q : list N),
+    In (OSend h m (Some q)) os -> is_kind m "MESSAGE" = true -> delivery_justified cfg s o h m q.
+Proof. exact C01_confinement. Qed.
+
+Theorem C01_confinement_frame :
+  forall (cfg : scfg) (h0 : N) (req : msg) (p : option (list N)) (c : ctx),
+    Inv cfg (st c) ->
+    exists d : list out,
+      outs (on_frame cfg h0 req p c) = outs c ++ d /\
+      (forall (h : N) (m : msg) (q : list N),
+       In (OSend h m (Some q)) d -> justified cfg (st c) h0 req (payload_of p) (script c) h m q).
+Proof. exact C01_on_frame. Qed.
+
+Theorem C01_only_messages_and_directs_carry_payloads :
+  forall (cfg : scfg) (s : state) (o : op) (s' : state) (os : list out),
+    Inv cfg s ->
+    step cfg s o = (s', os) ->
+    forall (h : N) (m : msg) (q : list N),
+    In (OSend h m (Some q)) os ->
+    is_kind m "MESSAGE" = true /\ delivery_justified cfg s o h m q \/
+    is_kind m "MOD_DIRECT" = true /\ (exists ts : list str, o = Direct ts q).
+Proof. exact C01_only_messages_carry_payload. Qed.
+
+Theorem C01_no_cross_channel_leak :
+  forall (cfg : scfg) (s : state) (h0 : N) (req : msg) (p : option (list N))
+      (sc : list moutcome) (hi : list (str * nid)) (s' : state) (os : list out),
+    Inv cfg s ->
+    step cfg s (Frame h0 req p sc hi) = (s', os) ->
+    forall (h : N) (m : msg) (q : list N),
+    In (OSend h m (Some q)) os ->
+    is_kind req "BROADCAST" = true /\
+    get_str m "channel" = get_str req "channel" /\
+    q = eff_payload cfg (payload_of p) sc /\
+    get_num m "length" = N.of_nat (Datatypes.length q) /\ h <> h0.
+Proof. exact C01_no_cross_channel. Qed.
+
+Theorem C01_targets_cache_is_filtered_members :
+  forall (cfg : scfg) (s : state), Inv cfg s -> InvSpec cfg s.
+Proof. exact Inv_spec. Qed.
+
+Theorem C01_disconnected_user_is_no_member :
+  forall (cfg : scfg) (s : state) (h : N) (cn : conn) (n : nid) (sc : list moutcome)
+      (hi : list (str * nid)),
+    Inv cfg s ->
+    nlookup h (conns s) = Some cn ->
+    c_nid cn = Some n ->
+    alookup (nu n) (router s) = Some [h] ->
+    let s' := fst (step cfg s (Hangup h sc hi)) in
+    alookup (nu n) (inch s') = None /\
+    alookup (nu n) (router s') = None /\
+    (forall (hd : str) (ch : chan),
+     alookup hd (chans s') = Some ch -> nmem n (ch_members ch) = false).
+Proof. exact hangup_last_connection_cleans_up. Qed.
